@@ -193,8 +193,11 @@ def handout_phase(spec):
     codes = ["Nemeth", "UEB", "CMU"]
     every = all_nav_commands()
 
+    ragged = [False]
+
     def expression():
-        if rng.random() < 0.2:
+        ragged[0] = rng.random() < 0.25
+        if ragged[0]:
             tree = ragged_table(rng)
         else:
             tree = gen.Textbook(rng, max_depth=rng.choice([2, 3]), p_ident=0.5).expression()[0]
@@ -211,6 +214,11 @@ def handout_phase(spec):
     for _ in range(spec["n"]):
         case = {"phase": "handout", "mathml": expression(), "tts": rng.choice(["SSML", "SAPI5"]), "code": rng.choice(codes), "nav_mode": rng.choice(NAV_MODES),
                 "steps": make_steps(rng, every), "positions": [rng.randint(0, 40) for _ in range(4)]}
+        if ragged[0]:
+            # walk INTO the table and move cell-wise (rows have different lengths: the neighbour above/below may not exist)
+            case["steps"] = [["nav", "ZoomIn"] for _ in range(rng.randint(1, 4))] + \
+                            [["nav", rng.choice(["MoveCellDown", "MoveCellUp", "MoveCellNext", "MoveCellPrevious", "MoveNext", "MoveNext", "MovePrevious", "MoveColumnStart",
+                                                 "MoveColumnEnd", "MoveLineStart", "MoveLineEnd", "ZoomIn", "ZoomOut", "ReadCellCurrent"])] for _ in range(rng.randint(6, 16))]
         if rng.random() < 0.5:
             case["again"] = {"mathml": case["mathml"] if rng.random() < 0.7 else expression(), "steps": make_steps(rng, every, 1, 8)}
         cases.append(case)
@@ -316,7 +324,7 @@ def run(tier, seed):
     for i, sp in enumerate(specs):
         sp["fixed_xml"] = list(sp["fixed_xml"]) + idioms[i::len(specs)]
     results = core.run_shards(canon_run.shard, specs)
-    h_specs = [{"seed": core.sub_seed(seed, PROP, "handout", i), "n": 40 if tier == "quick" else 2000, "time_budget": 40 if tier == "quick" else 600} for i in range(core.NPROC)]
+    h_specs = [{"seed": core.sub_seed(seed, PROP, "handout", i), "n": 70 if tier == "quick" else 2500, "time_budget": 40 if tier == "quick" else 600} for i in range(core.NPROC)]
     results += core.run_shards(handout_phase, h_specs)
     f_specs = [{"seed": core.sub_seed(seed, PROP, "feedback", i), "n": 250 if tier == "quick" else 12000, "time_budget": 30 if tier == "quick" else 500} for i in range(core.NPROC)]
     results += core.run_shards(feedback_phase, f_specs)
